@@ -57,7 +57,9 @@ Print Assumptions C12_json_dump_total.
 
 (** ** J1.  [load_json(..., load_order=False)] into ANY consistent receiver
     [b] (any variable order, any extra or missing variables) with dynamic
-    reordering disabled and exact reference counts ([Counts (mgr b) L]).
+    reordering disabled, no bound on the number of nodes
+    ([max_nodes (mgr b) = None], the default) and exact reference counts
+    ([Counts (mgr b) L]).
 
     The load does not fail.  [r1] is the receiver right after the
     "level_of_var" line: [declare] adds the missing names at the bottom and
@@ -74,7 +76,7 @@ Print Assumptions C12_json_dump_total.
 Theorem C12_json_roundtrip s roots vorder jf sd b L :
   Inv s → Forall (valid s) (roots_values roots) →
   dump_json roots vorder s = (Ok jf, sd) →
-  Inv (mgr b) → last_len (mgr b) = None → Counts (mgr b) L →
+  Inv (mgr b) → last_len (mgr b) = None → max_nodes (mgr b) = None → Counts (mgr b) L →
   sd = s ∧
   ∃ b' r1 us,
     declare (jf_levels jf).*1 (mgr b) = (Ok tt, r1) ∧
@@ -102,7 +104,7 @@ Print Assumptions C12_json_roundtrip.
 Theorem C12_json_load s roots vorder jf r0 H n L :
   Inv s → json_file s roots vorder jf → roots ≠ RNone →
   Forall (valid s) (roots_values roots) →
-  Inv r0 → last_len r0 = None → Counts r0 L →
+  Inv r0 → last_len r0 = None → max_nodes r0 = None → Counts r0 L →
   ∃ r1 r' us,
     declare (jf_levels jf).*1 r0 = (Ok tt, r1) ∧
     a_load_json jf false (ASt r0 H n)
@@ -130,7 +132,7 @@ Print Assumptions C12_json_load.
     Conditional form: [r1] is the receiver after [configure] and [declare];
     the PREMISE is that the [reorder] call succeeds in a consistent state
     [r2] whose variables and order are exactly those of the file, with exact
-    reference counts.  (From [r2] on the receiver only grows; old references
+    reference counts and no bound on the number of nodes.  (From [r2] on the receiver only grows; old references
     valid in [r2] keep their nodes.) *)
 Theorem C12_json_roundtrip_order s roots vorder jf sd b r1 r2 L2 :
   Inv s → Forall (valid s) (roots_values roots) →
@@ -138,7 +140,7 @@ Theorem C12_json_roundtrip_order s roots vorder jf sd b r1 r2 L2 :
   declare (jf_levels jf).*1 (mgr b <| last_len := None |>) = (Ok tt, r1) →
   (* PREMISE on the [reorder] call *)
   reorder (Some (list_to_map (reverse (jf_levels jf)))) r1 = (Ok tt, r2) →
-  Inv r2 → vars r2 = vars s → last_len r2 = None → Counts r2 L2 →
+  Inv r2 → vars r2 = vars s → last_len r2 = None → max_nodes r2 = None → Counts r2 L2 →
   sd = s ∧
   ∃ b' us,
     a_load_json jf true b = (Ok (hroots_of roots (next_hid b)), b') ∧
@@ -157,7 +159,7 @@ Theorem C12_json_load_order s roots vorder jf r0 H n r1 r2 L2 :
   Forall (valid s) (roots_values roots) →
   declare (jf_levels jf).*1 (r0 <| last_len := None |>) = (Ok tt, r1) →
   reorder (Some (list_to_map (reverse (jf_levels jf)))) r1 = (Ok tt, r2) →
-  Inv r2 → vars r2 = vars s → last_len r2 = None → Counts r2 L2 →
+  Inv r2 → vars r2 = vars s → last_len r2 = None → max_nodes r2 = None → Counts r2 L2 →
   ∃ r3 us,
     let r' := r3 <| last_len := Some (Nat.max REORDER_STARTS (len r3)) |> in
     a_load_json jf true (ASt r0 H n)
@@ -182,7 +184,8 @@ Print Assumptions C12_json_reorder_noop.
 Theorem C12_json_roundtrip_same_order s roots vorder jf sd b L :
   Inv s → Forall (valid s) (roots_values roots) →
   dump_json roots vorder s = (Ok jf, sd) →
-  Inv (mgr b) → vars (mgr b) = vars s → Forall (valid (mgr b)) (Base.roots (mgr b)) →
+  Inv (mgr b) → max_nodes (mgr b) = None → vars (mgr b) = vars s →
+  Forall (valid (mgr b)) (Base.roots (mgr b)) →
   Counts (mgr b) L →
   sd = s ∧
   ∃ b' us,
@@ -202,7 +205,9 @@ Print Assumptions C12_json_roundtrip_same_order.
     reference per handle, or the call raises, creates no handle and leaks no
     reference (the memo's references and every temporary are released).  In
     both cases the receiver only grows after [declare] and every old
-    reference keeps its meaning. *)
+    reference keeps its meaning.  No hypothesis on [max_nodes r0]: a full
+    table ([RuntimeError] raised by [find_or_add]) is one of the failures
+    covered. *)
 Theorem C12_json_load_any_file jf r0 H n L :
   Inv r0 → last_len r0 = None → Counts r0 L →
   ∃ res r1 r' H' n',
@@ -337,4 +342,18 @@ Example C12_json_reordering_enabled :
   snd (astep_json_load w 1 jf0 false)
     = Ok (VL [VL [VN 7; VN 3]; VL [VN 3; VN 4]; VL [VN 9; VN 5]]) ∧
   vars (mgr (aworld_get w 1)) !! 5 = Some 2 ∧ vars (mgr b') !! 5 = Some 3.
+Proof. by vm_compute. Qed.
+
+(** The hypothesis [max_nodes (mgr b) = None] of J1 is needed for success:
+    receiver 1 bounded at its current size (4 nodes, next free id 5) refuses
+    the first new node with [RuntimeError]; as stated by
+    [C12_json_load_any_file] no handle is created and the reference counts
+    are those of before. *)
+Example C12_json_max_nodes :
+  let b := aworld_get jw1 1 in
+  let w := <[1 := b <| mgr := mgr b <| max_nodes := Some 5%positive |> |>]> jw1 in
+  let b' := aworld_get (fst (astep_json_load w 1 jf0 false)) 1 in
+  snd (astep_json_load w 1 jf0 false) = Err ERuntime ∧
+  map_to_list (handles b') = map_to_list (handles b) ∧ next_hid b' = next_hid b ∧
+  map_to_list (refc (mgr b')) = map_to_list (refc (mgr b)).
 Proof. by vm_compute. Qed.
